@@ -264,6 +264,9 @@ type store struct {
 	// issued[c][pid] = the proposal last offered under that command identity
 	issued map[string]map[int64]sealed
 	infra  []string
+	// multi-item calls (multibatch_test.go): told about every cancelled attempt; cancellation points enumerated
+	afterCancelled func(items []batchItem, reps []any, cancelAt int64)
+	cancelPoints   int64
 }
 
 type probes struct {
@@ -404,6 +407,9 @@ func outcomeName(o quorumlog.AppendOutcome) string {
 // call performs the call k and returns the observed reply.
 func (s *store) call(k map[string]any) (map[string]any, error) {
 	a, c := kit.Str(k, "a"), kit.Str(k, "c")
+	if a == "Batch" { // one StoreAppendBatch call with several items: multibatch_test.go
+		return s.batch(k)
+	}
 	if _, ok := chanDefs[c]; !ok {
 		return nil, fmt.Errorf("unknown channel %q", c)
 	}
@@ -618,7 +624,7 @@ func (s *store) call(k map[string]any) (map[string]any, error) {
 		}
 		return errRes(err), nil
 	}
-	return nil, fmt.Errorf("unknown call %q", a)
+	return s.callEpoch(k) // epoch history: history_epoch_test.go
 }
 
 func sameRecs(a, b []rec) bool {
